@@ -291,12 +291,12 @@ def acceptSeq (v : Variant) (b : Backend) (d : Seq) (s : Solver) (cfgNoise : Boo
 
 /-! ## C04 — the whole pipeline `run()` -/
 
-/-- `accept backend interaction_type dim noise_kinds solver`: `PulserData.__init__`
-(interaction type, then the Lindblad operators of the noise model), then the back-end on the
-resulting `SequenceData` (a register of two well-prepared atoms; `config.noise_model` is the
-noise model in effect, i.e. `prefer_device_noise_model = False`). -/
-def acceptV (v : Variant) (b : Backend) (it : IntType) (dim : Nat) (kinds : List NoiseKind)
-    (s : Solver) : Outcome :=
+/-- `PulserData.__init__` (interaction type, then the Lindblad operators of the noise model *in
+effect*, `kinds`), then the back-end on the resulting `SequenceData` (a register of two
+well-prepared atoms). `cfgNoise` is `config.noise_model.noise_types != ()` — what
+`DMRGBackendImpl.__init__` looks at. -/
+def acceptCore (v : Variant) (b : Backend) (it : IntType) (dim : Nat) (kinds : List NoiseKind)
+    (cfgNoise : Bool) (s : Solver) : Outcome :=
   match detectHam it with
   | .err e => .raise e
   | .ok ham =>
@@ -304,7 +304,34 @@ def acceptV (v : Variant) (b : Backend) (it : IntType) (dim : Nat) (kinds : List
     | .err e => .raise e
     | .ok n =>
       acceptSeq v b { ham := ham, dim := dim, opDims := List.replicate n dim, nAtoms := 2, nGood := 2 }
-        s (!kinds.isEmpty)
+        s cfgNoise
+
+/-- `accept backend interaction_type dim noise_kinds solver`: the whole `run()` with
+`prefer_device_noise_model = False` (the default): the noise model in effect *is*
+`config.noise_model`. -/
+def acceptV (v : Variant) (b : Backend) (it : IntType) (dim : Nat) (kinds : List NoiseKind)
+    (s : Solver) : Outcome :=
+  acceptCore v b it dim kinds (!kinds.isEmpty) s
+
+/-- `run()` with the `prefer_device_noise_model` switch: `PulserData.__init__` takes the device's
+default noise model (`devKinds`) when it is set, `config.noise_model` (`cfgKinds`) otherwise; the
+DMRG constructor always looks at `config.noise_model`. `fixed = false` is the current tree;
+`fixed = true` is the proposed repair (finding D20): `run()` refuses solver DMRG when the noise
+model in effect is not empty, right after `PulserData` is built. -/
+def acceptDevEff (fixed : Bool) (b : Backend) (it : IntType) (dim : Nat)
+    (eff : List NoiseKind) (cfgNoise : Bool) (s : Solver) : Outcome :=
+  match detectHam it with
+  | .err e => .raise e
+  | .ok _ =>
+    match allLindblad dim eff with
+    | .err e => .raise e
+    | .ok _ =>
+      if fixed ∧ b = .mps ∧ s = .dmrg ∧ !eff.isEmpty then .raise .notImpl
+      else acceptCore .repaired b it dim eff cfgNoise s
+
+def acceptDev (fixed : Bool) (b : Backend) (it : IntType) (dim : Nat) (prefer : Bool)
+    (cfgKinds devKinds : List NoiseKind) (s : Solver) : Outcome :=
+  acceptDevEff fixed b it dim (if prefer then devKinds else cfgKinds) (!cfgKinds.isEmpty) s
 
 def accept : Backend → IntType → Nat → List NoiseKind → Solver → Outcome := acceptV .repaired
 
@@ -322,8 +349,10 @@ def pulserBasis (bases : List ChanBasis) (leak : Bool) : Option (IntType × Nat)
 
 /-- A Pulser sequence through `run()`: `PulserData.__init__`, then `get_sequences`
 (`_extract_omega_delta_phi` rejects every basis set but `{ground-rydberg}` and `{XY}`), then the
-back-end. `none` = Pulser cannot build a sequence addressing this set of bases. -/
-def acceptSequence (v : Variant) (b : Backend) (bases : List ChanBasis) (leak : Bool)
+back-end. `none` = Pulser cannot build a sequence addressing this set of bases. `fixed` as in
+`acceptDev` (proposed repair of finding D20: `run()` refuses DMRG + a non-empty noise model right
+after `PulserData` is built; it only changes *which* exception such a run gets). -/
+def acceptSequence (v : Variant) (fixed : Bool) (b : Backend) (bases : List ChanBasis) (leak : Bool)
     (kinds : List NoiseKind) (s : Solver) : Option Outcome :=
   match pulserBasis bases leak with
   | none => none
@@ -335,8 +364,10 @@ def acceptSequence (v : Variant) (b : Backend) (bases : List ChanBasis) (leak : 
         match allLindblad dim kinds with
         | .err e => .raise e
         | .ok _ =>
-          match extractOk bases with
-          | .err e => .raise e
-          | .ok () => acceptV v b it dim kinds s
+          if fixed ∧ b = .mps ∧ s = .dmrg ∧ !kinds.isEmpty then .raise .notImpl
+          else
+            match extractOk bases with
+            | .err e => .raise e
+            | .ok () => acceptV v b it dim kinds s
 
 end EmuVerif.Config
